@@ -730,3 +730,480 @@ Proof.
     destruct (at_value n) as [| |[|]]; exact I.
   - unfold ne_type_hash. destruct (find_attr 5 (ne_attrs e)); [|exact I]. destruct (at_value n); exact I.
 Qed.
+
+(* ------------------------------------------------------------------ layout (DWARF 5 §6.1.1.2) *)
+
+Theorem names_layout dbg h cu ltu ftu bk hsh nm eo ab pool abbrevs :
+  nh_wf h ->
+  nh_content h = cu ++ ltu ++ ftu ++ bk ++ hsh ++ nm ++ eo ++ ab ++ pool ->
+  blen cu = nh_cu_count h * word_size (nh_fmt64 h) ->
+  blen ltu = nh_ltu_count h * word_size (nh_fmt64 h) ->
+  blen ftu = nh_ftu_count h * 8 ->
+  blen bk = nh_bucket_count h * 4 ->
+  blen hsh = (if nh_bucket_count h =? 0 then 0 else nh_name_count h * 4) ->
+  blen nm = nh_name_count h * word_size (nh_fmt64 h) ->
+  blen eo = nh_name_count h * word_size (nh_fmt64 h) ->
+  blen ab = nh_abbrev_size h ->
+  name_abbrevs dbg ab = Ok abbrevs ->
+  name_index_new dbg h =
+    Ok {| ni_fmt64 := nh_fmt64 h; ni_cu_count := nh_cu_count h; ni_ltu_count := nh_ltu_count h;
+          ni_ftu_count := nh_ftu_count h; ni_bucket_count := nh_bucket_count h;
+          ni_name_count := nh_name_count h;
+          ni_cu_list := cu; ni_ltu_list := ltu; ni_ftu_list := ftu; ni_buckets := bk; ni_hashes := hsh;
+          ni_names := nm; ni_entry_offsets := eo; ni_pool := pool; ni_abbrevs := abbrevs |}.
+Proof.
+  intros (Hcu & Hltu & Hftu & Hbc & Hnc & Hasz) Hc L1 L2 L3 L4 L5 L6 L7 L8 Hab. unfold name_index_new.
+  change (2 ^ 32) with 4294967296 in *.
+  assert (Hws : word_size (nh_fmt64 h) = 4 \/ word_size (nh_fmt64 h) = 8) by (destruct (nh_fmt64 h); cbn; auto).
+  set (ws := word_size (nh_fmt64 h)) in *.
+  rewrite ?chk_mul_ok by (change (2 ^ 64) with 18446744073709551616; lia). cbn [bind].
+  assert (Hh : (if nh_bucket_count h =? 0 then Ok 0 else Ok (nh_name_count h * 4))
+               = Ok (if nh_bucket_count h =? 0 then 0 else nh_name_count h * 4))
+    by (destruct (nh_bucket_count h =? 0); reflexivity).
+  rewrite Hh. cbn [bind]. rewrite Hc.
+  rewrite (rd_split_app_n _ cu) by (symmetry; exact L1). cbn [bind].
+  rewrite (rd_split_app_n _ ltu) by (symmetry; exact L2). cbn [bind].
+  rewrite (rd_split_app_n _ ftu) by (symmetry; exact L3). cbn [bind].
+  rewrite (rd_split_app_n _ bk) by (symmetry; exact L4). cbn [bind].
+  rewrite (rd_split_app_n _ hsh) by (symmetry; exact L5). cbn [bind].
+  rewrite (rd_split_app_n _ nm) by (symmetry; exact L6). cbn [bind].
+  rewrite (rd_split_app_n _ eo) by (symmetry; exact L7). cbn [bind].
+  rewrite (rd_split_app_n _ ab) by (symmetry; exact L8). cbn [bind].
+  rewrite Hab. reflexivity.
+Qed.
+
+(* ------------------------------------------------------------------ header and index of an encoded name index *)
+
+Lemma blen_enc_words_fmt (fmt64 be : bool) l :
+  blen (concat (map (enc_word fmt64 be) l)) = N.of_nat (length l) * word_size fmt64.
+Proof.
+  unfold blen. induction l as [|a l IH]; [reflexivity|]. cbn [map concat length].
+  rewrite app_length. unfold enc_word at 1. destruct fmt64; rewrite enc_un_length; cbn [word_size] in *; lia.
+Qed.
+
+Lemma land3 n : N.land n 3 = n mod 4.
+Proof. change 3 with (N.ones 2). rewrite N.land_ones. reflexivity. Qed.
+
+Definition names_desc_wf (d : names_desc) : Prop :=
+  N.of_nat (length (n_cus d)) < 2 ^ 32 /\ N.of_nat (length (n_ltus d)) < 2 ^ 32 /\
+  N.of_nat (length (n_ftus d)) < 2 ^ 32 /\ N.of_nat (length (n_buckets d)) < 2 ^ 32 /\
+  n_name_count d < 2 ^ 32 /\ N.of_nat (length (n_abbrev d)) < 2 ^ 32 /\ N.of_nat (length (n_aug d)) < 2 ^ 32.
+
+Definition names_content (be : bool) (d : names_desc) : list byte :=
+  concat (map (enc_word (n_fmt64 d) be) (n_cus d))
+  ++ concat (map (enc_word (n_fmt64 d) be) (n_ltus d))
+  ++ enc_words 8 be (n_ftus d)
+  ++ enc_words 4 be (n_buckets d)
+  ++ enc_words 4 be (n_hashes d)
+  ++ concat (map (enc_word (n_fmt64 d) be) (n_stroffs d))
+  ++ concat (map (enc_word (n_fmt64 d) be) (n_entryoffs d))
+  ++ n_abbrev d ++ n_pool d.
+
+Theorem names_header_encoded dbg be off d rest :
+  names_desc_wf d ->
+  blen (enc_names_body be d) < (if n_fmt64 d then 2 ^ 64 else 4294967280) ->
+  name_header_parse dbg be off (enc_names be d ++ rest) =
+    Ok ({| nh_offset := off; nh_length := blen (enc_names_body be d); nh_fmt64 := n_fmt64 d; nh_version := 5;
+           nh_cu_count := N.of_nat (length (n_cus d)); nh_ltu_count := N.of_nat (length (n_ltus d));
+           nh_ftu_count := N.of_nat (length (n_ftus d)); nh_bucket_count := N.of_nat (length (n_buckets d));
+           nh_name_count := n_name_count d; nh_abbrev_size := N.of_nat (length (n_abbrev d));
+           nh_aug := (match n_aug d with [] => None | _ => Some (n_aug d) end);
+           nh_content := names_content be d |}, rest).
+Proof.
+  intros (H1 & H2 & H3 & H4 & H5 & H6 & H7) Hlen. unfold name_header_parse, enc_names. cbv zeta.
+  change (N.of_nat (length (enc_names_body be d))) with (blen (enc_names_body be d)).
+  set (L := blen (enc_names_body be d)) in *.
+  rewrite <- app_assoc. rewrite read_initial_length_enc by exact Hlen. cbn [bind].
+  rewrite rd_split_app_n by reflexivity. cbn [bind].
+  unfold enc_names_body. rewrite <- ?app_assoc.
+  rewrite read_un_enc_small by (change (8 * N.of_nat 2) with 16; reflexivity). cbn [bind].
+  change (negb (5 =? 5)) with false. cbv iota.
+  rewrite (rd_skip_app_n 2 (enc_un 2 be 0)) by (unfold blen; rewrite enc_un_length; reflexivity). cbn [bind].
+  change (8 * N.of_nat 4) with 32.
+  do 7 (rewrite read_un_enc_small by (change (8 * N.of_nat 4) with 32; assumption); cbn [bind]).
+  fold (names_content be d).
+  destruct (n_aug d) as [|a0 aug0] eqn:Eaug.
+  - cbn [length]. change (0 <? N.of_nat 0) with false. cbv iota. cbn [bind app repeat].
+    change (N.to_nat (aug_padding (N.of_nat 0))) with O. cbn [repeat app]. reflexivity.
+  - rewrite <- Eaug in *. set (al := N.of_nat (length (n_aug d))) in *.
+    assert (Hpos : 0 <? al = true) by (unfold al; rewrite Eaug; cbn [length]; lia).
+    rewrite Hpos.
+    rewrite (rd_split_app_n al (n_aug d)) by reflexivity. cbn [bind].
+    assert (H3' : N.land al 3 <= 4) by (eapply N.le_trans; [apply land_le_r|discriminate]).
+    rewrite chk_sub_ok by exact H3'. cbn [bind].
+    assert (Hp : N.land (4 - N.land al 3) 3 = aug_padding al).
+    { rewrite !land3. unfold aug_padding. reflexivity. }
+    rewrite Hp. rewrite rd_skip_app_n by (rewrite blen_repeat, N2Nat.id; reflexivity). cbn [bind].
+    rewrite Eaug. reflexivity.
+Qed.
+
+(* end to end: bytes of an encoded name index whose buckets are built from its (grouped) hashes:
+   header, NameIndex::new, then find_by_hash = exhaustive scan of the hash array *)
+Theorem names_lookup_encoded dbg be off d rest abbrevs :
+  names_desc_wf d ->
+  blen (enc_names_body be d) < (if n_fmt64 d then 2 ^ 64 else 4294967280) ->
+  let bc := N.of_nat (length (n_buckets d)) in
+  0 < bc -> n_buckets d = build_buckets bc (n_hashes d) -> grouped bc (n_hashes d) ->
+  n_name_count d = N.of_nat (length (n_hashes d)) ->
+  length (n_stroffs d) = length (n_hashes d) -> length (n_entryoffs d) = length (n_hashes d) ->
+  Forall (fun v => v < 2 ^ 32) (n_hashes d) ->
+  name_abbrevs dbg (n_abbrev d) = Ok abbrevs ->
+  exists h ix,
+    name_header_parse dbg be off (enc_names be d ++ rest) = Ok (h, rest) /\
+    name_index_new dbg h = Ok ix /\
+    (forall hash, ni_find_by_hash dbg be ix hash = Ok (positions hash 0 (n_hashes d), SDone)) /\
+    (forall b, b < bc ->
+       ni_find_by_bucket dbg be ix b =
+         Ok (match bucket_members bc b 0 (n_hashes d) with [] => None | l => Some (l, SDone) end)).
+Proof.
+  intros Hwf Hlen bc Hbc Hb Hg Hnc Ls Le Fh Hab.
+  pose proof Hwf as (H1 & H2 & H3 & H4 & H5 & H6 & H7).
+  eexists. eexists. split; [apply names_header_encoded; assumption|].
+  assert (Hbc0 : (bc =? 0) = false) by lia.
+  split.
+  - apply names_layout with (ab := n_abbrev d) (pool := n_pool d)
+      (cu := concat (map (enc_word (n_fmt64 d) be) (n_cus d)))
+      (ltu := concat (map (enc_word (n_fmt64 d) be) (n_ltus d)))
+      (ftu := enc_words 8 be (n_ftus d)) (bk := enc_words 4 be (n_buckets d))
+      (hsh := enc_words 4 be (n_hashes d))
+      (nm := concat (map (enc_word (n_fmt64 d) be) (n_stroffs d)))
+      (eo := concat (map (enc_word (n_fmt64 d) be) (n_entryoffs d))); cbn [nh_cu_count nh_ltu_count
+        nh_ftu_count nh_bucket_count nh_name_count nh_abbrev_size nh_fmt64 nh_content].
+    + unfold nh_wf. cbn. tauto.
+    + reflexivity.
+    + apply blen_enc_words_fmt.
+    + apply blen_enc_words_fmt.
+    + rewrite blen_enc_words. change (N.of_nat 8) with 8. lia.
+    + rewrite blen_enc_words. change (N.of_nat 4) with 4. lia.
+    + fold bc. rewrite Hbc0, blen_enc_words, Hnc. change (N.of_nat 4) with 4. lia.
+    + rewrite blen_enc_words_fmt, Ls, Hnc. reflexivity.
+    + rewrite blen_enc_words_fmt, Le, Hnc. reflexivity.
+    + reflexivity.
+    + exact Hab.
+  - assert (W : names_wf be
+        {| ni_fmt64 := n_fmt64 d; ni_cu_count := N.of_nat (length (n_cus d));
+           ni_ltu_count := N.of_nat (length (n_ltus d)); ni_ftu_count := N.of_nat (length (n_ftus d));
+           ni_bucket_count := N.of_nat (length (n_buckets d)); ni_name_count := n_name_count d;
+           ni_cu_list := concat (map (enc_word (n_fmt64 d) be) (n_cus d));
+           ni_ltu_list := concat (map (enc_word (n_fmt64 d) be) (n_ltus d));
+           ni_ftu_list := enc_words 8 be (n_ftus d); ni_buckets := enc_words 4 be (n_buckets d);
+           ni_hashes := enc_words 4 be (n_hashes d);
+           ni_names := concat (map (enc_word (n_fmt64 d) be) (n_stroffs d));
+           ni_entry_offsets := concat (map (enc_word (n_fmt64 d) be) (n_entryoffs d));
+           ni_pool := n_pool d; ni_abbrevs := abbrevs |} (n_hashes d)).
+    { unfold names_wf. cbn [ni_bucket_count ni_buckets ni_hashes ni_name_count]. fold bc.
+      repeat split; try assumption; try (rewrite Hb at 1; reflexivity); try reflexivity.
+      rewrite <- Hnc. exact H5. }
+    split.
+    + intros hash. apply find_by_hash_wf. exact W.
+    + intros b Hlt. apply (find_by_bucket_wf dbg be _ (n_hashes d) b W). exact Hlt.
+Qed.
+
+(* ------------------------------------------------------------------ ULEB128 of the minimal encoding *)
+
+Lemma cont_bit_high (b : byte) : 128 <= b2n b -> cont_bit b = true.
+Proof. destruct b; vm_compute; intros H; try reflexivity; exfalso; apply H; reflexivity. Qed.
+Lemma cont_bit_low (b : byte) : b2n b < 128 -> cont_bit b = false.
+Proof. destruct b; vm_compute; intros H; try reflexivity; discriminate. Qed.
+Lemma land127_mod (b : byte) : N.land (b2n b) 127 = b2n b mod 128.
+Proof. change 127 with (N.ones 7). apply N.land_ones. Qed.
+
+Lemma pow128_succ k : 128 ^ N.succ k = 128 * 128 ^ k.
+Proof. apply N.pow_succ_r'. Qed.
+
+Lemma enc_uleb_fuel_spec rest : forall fuel v,
+  (0 < fuel)%nat -> v < 128 ^ N.of_nat fuel ->
+  split_leb (enc_uleb_fuel fuel v ++ rest) = Some (enc_uleb_fuel fuel v, rest) /\
+  uval (enc_uleb_fuel fuel v) = v /\
+  (forall k, 1 <= k -> v < 128 ^ k -> N.of_nat (length (enc_uleb_fuel fuel v)) <= k).
+Proof.
+  induction fuel as [|fuel IH]; intros v Hpos Hv; [lia|].
+  - cbn [enc_uleb_fuel]. destruct (v <? 128) eqn:E.
+    + cbn [app split_leb uval length].
+      rewrite cont_bit_low by (rewrite b2n_n2b_small; lia).
+      rewrite land127_mod, b2n_n2b_small by lia. rewrite N.mod_small by lia.
+      repeat split; try lia. 
+    + assert (Hv' : v / 128 < 128 ^ N.of_nat fuel).
+      { rewrite Nat2N.inj_succ, pow128_succ in Hv. apply N.div_lt_upper_bound; lia. }
+      assert (Hf : (0 < fuel)%nat).
+      { destruct fuel; [|lia]. change (128 ^ N.of_nat 1) with 128 in Hv. lia. }
+      destruct (IH (v / 128) Hf Hv') as (Hs & Hu & Hl).
+      assert (Hb : b2n (n2b (128 + v mod 128)) = 128 + v mod 128).
+      { apply b2n_n2b_small. pose proof (N.mod_lt v 128). lia. }
+      cbn [app split_leb uval length]. rewrite cont_bit_high by (rewrite Hb; lia). rewrite Hs.
+      split; [reflexivity|]. split.
+      * rewrite Hu, land127_mod, Hb.
+        replace ((128 + v mod 128) mod 128) with (v mod 128).
+        2:{ rewrite <- N.add_mod_idemp_l by lia. change (128 mod 128) with 0. rewrite N.add_0_l.
+            rewrite N.mod_mod by lia. reflexivity. }
+        pose proof (N.div_mod v 128 ltac:(lia)). lia.
+      * intros k Hk Hvk. destruct (N.eq_dec k 1) as [->|Hne]; [change (128 ^ 1) with 128 in Hvk; lia|].
+        assert (Hk' : 1 <= k - 1) by lia.
+        assert (Hvk' : v / 128 < 128 ^ (k - 1)).
+        { replace k with (N.succ (k - 1)) in Hvk by lia. rewrite pow128_succ in Hvk.
+          apply N.div_lt_upper_bound; lia. }
+        specialize (Hl (k - 1) Hk' Hvk'). lia.
+Qed.
+
+Lemma read_uleb128_enc dbg v rest : v < 2 ^ 64 -> read_uleb128 dbg (enc_uleb v ++ rest) = Ok (v, rest).
+Proof.
+  intros Hv. rewrite read_uleb128_exact. unfold uleb_spec, enc_uleb.
+  assert (H19 : v < 128 ^ N.of_nat 19).
+  { change (128 ^ N.of_nat 19) with 10889035741470030830827987437816582766592.
+    change (2 ^ 64) with 18446744073709551616 in Hv. lia. }
+  destruct (enc_uleb_fuel_spec rest 19 v ltac:(lia) H19) as (Hs & Hu & Hl).
+  rewrite Hs, Hu.
+  assert (Hl10 : N.of_nat (length (enc_uleb_fuel 19 v)) <= 10).
+  { apply Hl; [lia|]. change (128 ^ 10) with 1180591620717411303424.
+    change (2 ^ 64) with 18446744073709551616 in Hv. lia. }
+  destruct ((length (enc_uleb_fuel 19 v) <=? 10)%nat && (v <? 2 ^ 64)) eqn:E; [reflexivity|lia].
+Qed.
+
+(* a 16-bit value read back by the u16 reader *)
+Lemma read_uleb128_u16_enc v rest : v < 2 ^ 16 -> read_uleb128_u16 (enc_uleb v ++ rest) = Ok (v, rest).
+Proof.
+  intros Hv. change (2 ^ 16) with 65536 in Hv. unfold enc_uleb, read_uleb128_u16.
+  assert (Hc : forall x, x < 256 -> has_cont x = negb (x <? 128)).
+  { intros x Hx. rewrite <- (b2n_n2b_small x Hx), <- cont_bit_has_cont.
+    destruct (b2n (n2b x) <? 128) eqn:E; [apply cont_bit_low|apply cont_bit_high]; lia. }
+  assert (Hl : forall x, x < 256 -> low7 x = x mod 128).
+  { intros x Hx. unfold low7. change 127 with (N.ones 7). apply N.land_ones. }
+  cbn [enc_uleb_fuel]. destruct (v <? 128) eqn:E1.
+  - cbn [app read_u8 bind]. rewrite b2n_n2b_small by lia. rewrite Hc by lia. rewrite E1. reflexivity.
+  - pose proof (N.mod_lt v 128 ltac:(lia)) as M1.
+    assert (B0 : b2n (n2b (128 + v mod 128)) = 128 + v mod 128) by (apply b2n_n2b_small; lia).
+    cbn [app read_u8 bind]. rewrite B0. rewrite Hc by lia.
+    destruct (128 + v mod 128 <? 128) eqn:E0; [lia|]. cbn [negb]. cbv iota.
+    rewrite Hl by lia.
+    replace ((128 + v mod 128) mod 128) with (v mod 128)
+      by (rewrite <- N.add_mod_idemp_l by lia; change (128 mod 128) with 0; rewrite N.add_0_l, N.mod_mod; lia).
+    destruct (v / 128 <? 128) eqn:E2.
+    + cbn [app read_u8 bind]. rewrite b2n_n2b_small by lia. rewrite Hc by lia. rewrite E2. cbn [negb]. cbv iota.
+      rewrite Hl by lia. rewrite (N.mod_small (v / 128) 128) by lia.
+      assert (Hsh : N.shiftl (v / 128) 7 = v / 128 * 128) by (rewrite N.shiftl_mul_pow2; reflexivity).
+      assert (Hw : wrap16 (N.shiftl (v / 128) 7) = v / 128 * 128).
+      { unfold wrap16. rewrite Hsh. apply N.mod_small. change two16 with 65536. lia. }
+      rewrite Hw. rewrite <- Hsh. rewrite lor_shiftl_add by (change (2 ^ 7) with 128; lia). rewrite Hsh.
+      f_equal. f_equal. pose proof (N.div_mod v 128 ltac:(lia)). lia.
+    + pose proof (N.mod_lt (v / 128) 128 ltac:(lia)) as M2.
+      assert (B1 : b2n (n2b (128 + v / 128 mod 128)) = 128 + v / 128 mod 128) by (apply b2n_n2b_small; lia).
+      cbn [app read_u8 bind]. rewrite B1. rewrite Hc by lia.
+      destruct (128 + v / 128 mod 128 <? 128) eqn:E3; [lia|]. cbn [negb]. cbv iota.
+      rewrite Hl by lia.
+      replace ((128 + v / 128 mod 128) mod 128) with (v / 128 mod 128)
+        by (rewrite <- N.add_mod_idemp_l by lia; change (128 mod 128) with 0; rewrite N.add_0_l, N.mod_mod; lia).
+      assert (H3 : v / 128 / 128 < 4) by (apply N.div_lt_upper_bound; [lia|]; apply N.div_lt_upper_bound; lia).
+      destruct (v / 128 / 128 <? 128) eqn:E4; [|lia].
+      cbn [app read_u8 bind]. rewrite b2n_n2b_small by lia.
+      destruct (3 <? v / 128 / 128) eqn:E5; [lia|].
+      assert (Hsh : N.shiftl (v / 128 mod 128) 7 = v / 128 mod 128 * 128) by (rewrite N.shiftl_mul_pow2; reflexivity).
+      assert (Hw : wrap16 (N.shiftl (v / 128 mod 128) 7) = v / 128 mod 128 * 128).
+      { unfold wrap16. rewrite Hsh. apply N.mod_small. change two16 with 65536. lia. }
+      rewrite Hw. rewrite <- Hsh. rewrite lor_shiftl_add by (change (2 ^ 7) with 128; lia). rewrite Hsh.
+      assert (Hs2 : N.shiftl (v / 128 / 128) 14 = v / 128 / 128 * 16384) by (rewrite N.shiftl_mul_pow2; reflexivity).
+      assert (Hw2 : wrap16 (N.shiftl (v / 128 / 128) 14) = v / 128 / 128 * 16384).
+      { unfold wrap16. rewrite Hs2. apply N.mod_small. change two16 with 65536. lia. }
+      rewrite Hw2. change two16 with 65536.
+      pose proof (N.div_mod v 128 ltac:(lia)). pose proof (N.div_mod (v / 128) 128 ltac:(lia)).
+      destruct (v mod 128 + v / 128 mod 128 * 128 + v / 128 / 128 * 16384 <? 65536) eqn:E6; [|lia].
+      f_equal. f_equal. lia.
+Qed.
+
+(* ------------------------------------------------------------------ abbreviation table of an encoding *)
+
+Definition attr_spec_ok (a : N * N) : Prop := fst a <> 0 /\ snd a <> 0 /\ fst a < 2 ^ 16 /\ snd a < 2 ^ 16.
+Definition enc_attr_specs (attrs : list (N * N)) : list byte :=
+  concat (map (fun a => enc_uleb (fst a) ++ enc_uleb (snd a)) attrs).
+
+Lemma enc_uleb_nonempty v : (1 <= length (enc_uleb v))%nat.
+Proof. unfold enc_uleb. cbn [enc_uleb_fuel]. destruct (v <? 128); cbn [length]; lia. Qed.
+
+Lemma enc_attr_specs_length attrs : (length attrs <= length (enc_attr_specs attrs))%nat.
+Proof.
+  unfold enc_attr_specs. induction attrs as [|a l IH]; [cbn; lia|]. cbn [map concat length].
+  rewrite !app_length. pose proof (enc_uleb_nonempty (fst a)). lia.
+Qed.
+
+Lemma nattrs_parse_enc rest : forall attrs fuel,
+  Forall attr_spec_ok attrs -> (length attrs < fuel)%nat ->
+  nattrs_parse fuel (enc_attr_specs attrs ++ x00 :: x00 :: rest) = Ok (attrs, rest).
+Proof.
+  induction attrs as [|[n f] attrs IH]; intros fuel F Hf.
+  - destruct fuel as [|fuel]; [lia|]. reflexivity.
+  - destruct fuel as [|fuel]; [cbn in Hf; lia|]. cbn [nattrs_parse].
+    inversion F as [|? ? (Hn & Hfm & Hn16 & Hf16) F']; subst. cbn [fst snd] in *.
+    unfold enc_attr_specs. cbn [map concat fst snd]. rewrite <- !app_assoc.
+    rewrite read_uleb128_u16_enc by exact Hn16. cbn [bind].
+    rewrite read_uleb128_u16_enc by exact Hf16. cbn [bind].
+    destruct (n =? 0) eqn:E1; [lia|]. destruct (f =? 0) eqn:E2; [lia|]. cbn [andb].
+    fold (enc_attr_specs attrs). rewrite (IH fuel F') by (cbn in Hf; lia). reflexivity.
+Qed.
+
+Definition abbrev_ok (a : nabbrev) : Prop :=
+  na_code a <> 0 /\ na_code a < 2 ^ 64 /\ na_tag a <> 0 /\ na_tag a < 2 ^ 16 /\ Forall attr_spec_ok (na_attrs a).
+Definition enc_abbrevs (l : list nabbrev) : list byte :=
+  concat (map (fun a => enc_nabbrev (na_code a) (na_tag a) (na_attrs a)) l).
+
+Lemma enc_abbrevs_length l : (length l <= length (enc_abbrevs l))%nat.
+Proof.
+  unfold enc_abbrevs. induction l as [|a l IH]; [cbn; lia|]. cbn [map concat length].
+  rewrite app_length.
+  assert (H : (1 <= length (enc_nabbrev (na_code a) (na_tag a) (na_attrs a)))%nat).
+  { unfold enc_nabbrev. rewrite !app_length. pose proof (enc_uleb_nonempty (na_code a)). lia. }
+  lia.
+Qed.
+
+(* the table ends at its end or at a zero code; whatever follows the zero is ignored *)
+Lemma nabbrevs_parse_enc dbg tail : (tail = [] \/ exists junk, tail = x00 :: junk) ->
+  forall l fuel, Forall abbrev_ok l -> (length l < fuel)%nat ->
+  nabbrevs_parse dbg fuel (enc_abbrevs l ++ tail) = Ok l.
+Proof.
+  intros Htail. induction l as [|a l IH]; intros fuel F Hf.
+  - destruct fuel as [|fuel]; [lia|]. cbn [enc_abbrevs map concat app nabbrevs_parse].
+    destruct Htail as [->|(junk & ->)]; reflexivity.
+  - destruct fuel as [|fuel]; [cbn in Hf; lia|].
+    inversion F as [|? ? (Hc & Hc64 & Ht & Ht16 & Fa) F']; subst.
+    unfold enc_abbrevs. cbn [map concat]. fold (enc_abbrevs l). unfold enc_nabbrev. rewrite <- !app_assoc.
+    cbn [nabbrevs_parse].
+    destruct (enc_uleb (na_code a) ++ enc_uleb (na_tag a) ++
+              concat (map (fun a0 : N * N => enc_uleb (fst a0) ++ enc_uleb (snd a0)) (na_attrs a)) ++
+              [x00; x00] ++ enc_abbrevs l ++ tail) as [|b0 l0] eqn:El.
+    { exfalso. apply (f_equal (@length byte)) in El. rewrite app_length in El.
+      pose proof (enc_uleb_nonempty (na_code a)). cbn [length] in El. lia. }
+    rewrite <- El. clear El b0 l0.
+    rewrite read_uleb128_enc by exact Hc64. cbn [bind].
+    destruct (na_code a =? 0) eqn:E0; [lia|].
+    rewrite read_uleb128_u16_enc by exact Ht16. cbn [bind].
+    destruct (na_tag a =? 0) eqn:E1; [lia|].
+    fold (enc_attr_specs (na_attrs a)). cbn [app].
+    rewrite nattrs_parse_enc; [|exact Fa|].
+    2:{ rewrite app_length. pose proof (enc_attr_specs_length (na_attrs a)). lia. }
+    cbn [bind]. rewrite (IH fuel F') by (cbn in Hf; lia). cbn [bind].
+    destruct a; reflexivity.
+Qed.
+
+Theorem name_abbrevs_encoded dbg l tail :
+  (tail = [] \/ exists junk, tail = x00 :: junk) -> Forall abbrev_ok l ->
+  name_abbrevs dbg (enc_abbrevs l ++ tail) = Ok l.
+Proof.
+  intros Ht F. unfold name_abbrevs. apply nabbrevs_parse_enc; [exact Ht|exact F|].
+  rewrite app_length. pose proof (enc_abbrevs_length l). lia.
+Qed.
+
+(* ------------------------------------------------------------------ entries of an encoding *)
+
+Definition enc_nval (be : bool) (form : N) (v : nval) : list byte :=
+  match v with
+  | NVFlag b => if form =? 25 then [] else [n2b (if b then 1 else 0)]
+  | NVUnsigned x =>
+      if form =? 11 then [n2b x] else if form =? 5 then enc_un 2 be x else if form =? 6 then enc_un 4 be x
+      else if form =? 7 then enc_un 8 be x else enc_uleb x
+  | NVOffset x =>
+      if form =? 17 then [n2b x] else if form =? 18 then enc_un 2 be x else if form =? 19 then enc_un 4 be x
+      else if form =? 20 then enc_un 8 be x else enc_uleb x
+  end.
+(* which values a form can carry *)
+Definition nval_ok (form : N) (v : nval) : Prop :=
+  match v with
+  | NVFlag b => form = 12 \/ (form = 25 /\ b = true)
+  | NVUnsigned x => (form = 11 /\ x < 2 ^ 8) \/ (form = 5 /\ x < 2 ^ 16) \/ (form = 6 /\ x < 2 ^ 32) \/
+                    (form = 7 /\ x < 2 ^ 64) \/ (form = 15 /\ x < 2 ^ 64)
+  | NVOffset x => (form = 17 /\ x < 2 ^ 8) \/ (form = 18 /\ x < 2 ^ 16) \/ (form = 19 /\ x < 2 ^ 32) \/
+                  (form = 20 /\ x < 2 ^ 64) \/ (form = 21 /\ x < 2 ^ 64)
+  end.
+
+Lemma read_nform_enc dbg be form v rest :
+  nval_ok form v -> read_nform dbg be form (enc_nval be form v ++ rest) = Ok (v, rest).
+Proof.
+  destruct v as [x|x|b]; cbn [nval_ok enc_nval]; intros H.
+  - destruct H as [(-> & Hx)|[(-> & Hx)|[(-> & Hx)|[(-> & Hx)|(-> & Hx)]]]]; unfold read_nform;
+      cbn [N.eqb Pos.eqb app].
+    + cbn [read_u8 bind]. rewrite b2n_n2b_small by exact Hx. reflexivity.
+    + rewrite read_un_enc_small by exact Hx. reflexivity.
+    + rewrite read_un_enc_small by exact Hx. reflexivity.
+    + rewrite read_un_enc_small by exact Hx. reflexivity.
+    + rewrite read_uleb128_enc by exact Hx. reflexivity.
+  - destruct H as [(-> & Hx)|[(-> & Hx)|[(-> & Hx)|[(-> & Hx)|(-> & Hx)]]]]; unfold read_nform;
+      cbn [N.eqb Pos.eqb app].
+    + cbn [read_u8 bind]. rewrite b2n_n2b_small by exact Hx. reflexivity.
+    + rewrite read_un_enc_small by exact Hx. reflexivity.
+    + rewrite read_un_enc_small by exact Hx. reflexivity.
+    + rewrite read_un_enc_small by exact Hx. reflexivity.
+    + rewrite read_uleb128_enc by exact Hx. reflexivity.
+  - destruct H as [->|(-> & ->)]; unfold read_nform; cbn [N.eqb Pos.eqb app].
+    + cbn [read_u8 bind]. destruct b; reflexivity.
+    + reflexivity.
+Qed.
+
+Definition enc_nattrs (be : bool) (attrs : list nattr) : list byte :=
+  concat (map (fun a => enc_nval be (at_form a) (at_value a)) attrs).
+Definition spec_of (a : nattr) : N * N := (at_name a, at_form a).
+
+Lemma read_nattrs_enc dbg be rest : forall attrs,
+  Forall (fun a => nval_ok (at_form a) (at_value a)) attrs ->
+  read_nattrs dbg be (map spec_of attrs) (enc_nattrs be attrs ++ rest) = Ok (attrs, rest).
+Proof.
+  induction attrs as [|a attrs IH]; intros F; [reflexivity|].
+  inversion F as [|? ? Ha F']; subst. cbn [map read_nattrs spec_of].
+  unfold enc_nattrs. cbn [map concat]. rewrite <- app_assoc.
+  rewrite read_nform_enc by exact Ha. cbn [bind]. fold (enc_nattrs be attrs). rewrite (IH F'). cbn [bind].
+  destruct a; reflexivity.
+Qed.
+
+(* one entry: abbreviation code then the attribute values in the abbreviation's order *)
+Definition enc_nentry (be : bool) (code : N) (attrs : list nattr) : list byte :=
+  enc_uleb code ++ enc_nattrs be attrs.
+
+Theorem nentry_parse_encoded dbg be abbrevs a off code attrs rest :
+  code <> 0 -> code < 2 ^ 64 -> nabbrev_get code abbrevs = Some a ->
+  na_attrs a = map spec_of attrs -> Forall (fun x => nval_ok (at_form x) (at_value x)) attrs ->
+  nentry_parse dbg be abbrevs off (enc_nentry be code attrs ++ rest) =
+    Ok (Some {| ne_offset := off; ne_code := code; ne_tag := na_tag a; ne_attrs := attrs |}, rest).
+Proof.
+  intros Hc Hc64 Hget Hsp F. unfold nentry_parse, enc_nentry. rewrite <- app_assoc.
+  rewrite read_uleb128_enc by exact Hc64. cbn [bind].
+  destruct (code =? 0) eqn:E; [lia|]. rewrite Hget, Hsp.
+  rewrite read_nattrs_enc by exact F. reflexivity.
+Qed.
+
+(* a series of entries ends at a zero code; each entry carries its offset in the pool *)
+Definition entry_ok (abbrevs : list nabbrev) (e : N * list nattr) : Prop :=
+  fst e <> 0 /\ fst e < 2 ^ 64 /\
+  (exists a, nabbrev_get (fst e) abbrevs = Some a /\ na_attrs a = map spec_of (snd e)) /\
+  Forall (fun x => nval_ok (at_form x) (at_value x)) (snd e).
+Definition tag_of (abbrevs : list nabbrev) (code : N) : N :=
+  match nabbrev_get code abbrevs with Some a => na_tag a | None => 0 end.
+Fixpoint series_bytes (be : bool) (es : list (N * list nattr)) : list byte :=
+  match es with [] => [] | e :: r => enc_nentry be (fst e) (snd e) ++ series_bytes be r end.
+Fixpoint series_entries (be : bool) (abbrevs : list nabbrev) (end_offset : N) (es : list (N * list nattr))
+         (tail : list byte) : list nentry :=
+  match es with
+  | [] => []
+  | e :: r =>
+      {| ne_offset := end_offset - blen (series_bytes be (e :: r) ++ tail); ne_code := fst e;
+         ne_tag := tag_of abbrevs (fst e); ne_attrs := snd e |} :: series_entries be abbrevs end_offset r tail
+  end.
+
+Theorem nentries_encoded dbg be abbrevs end_offset junk : forall es fuel,
+  Forall (entry_ok abbrevs) es -> (length es < fuel)%nat ->
+  blen (series_bytes be es ++ x00 :: junk) <= end_offset ->
+  nentries_loop dbg be fuel abbrevs end_offset (series_bytes be es ++ x00 :: junk)
+  = (series_entries be abbrevs end_offset es (x00 :: junk), SDone).
+Proof.
+  induction es as [|[code attrs] es IH]; intros fuel F Hf Hle.
+  - destruct fuel as [|fuel]; [lia|]. cbn [series_bytes app nentries_loop].
+    rewrite chk_sub_ok by exact Hle. unfold nentry_parse.
+    change (x00 :: junk) with (enc_uleb 0 ++ junk). rewrite read_uleb128_enc by reflexivity. reflexivity.
+  - destruct fuel as [|fuel]; [cbn in Hf; lia|].
+    inversion F as [|? ? (Hc & Hc64 & (a & Hget & Hsp) & Fa) F']; subst. cbn [fst snd] in *.
+    cbn [nentries_loop].
+    destruct (series_bytes be ((code, attrs) :: es) ++ x00 :: junk) as [|b0 l0] eqn:El.
+    { exfalso. apply (f_equal (@length byte)) in El. cbn [series_bytes fst snd] in El.
+      unfold enc_nentry in El. rewrite !app_length in El. cbn [length] in El. pose proof (enc_uleb_nonempty code). lia. }
+    rewrite <- El in *. clear El b0 l0. rewrite chk_sub_ok by exact Hle.
+    cbn [series_bytes fst snd] in *. rewrite <- app_assoc in *.
+    rewrite (nentry_parse_encoded dbg be abbrevs a _ code attrs _ Hc Hc64 Hget Hsp Fa).
+    rewrite (IH fuel F') by (try (cbn in Hf; lia); rewrite blen_app in Hle; lia).
+    unfold run_cons. cbn [fst snd series_entries series_bytes]. unfold tag_of. rewrite Hget.
+    rewrite <- app_assoc. reflexivity.
+Qed.
